@@ -51,13 +51,31 @@ def flags(pool: bool = False) -> Any:
     return _FLAGS['f']
 
 
+
+def host_header(c: Dict[str, Any]) -> bytes:
+    """The Host field of the examined request: unrelated, the target's authority, or the target's host with ANOTHER port / without
+    one.  The request-target alone says where the request goes (RFC 7230 5.4: a proxy ignores Host for an absolute-form target)."""
+    kind = c.get('host_header') or 'other'
+    if kind == 'other':
+        return b'whatever.test'
+    h = c['host'].encode()
+    if c['hkind'] == 'v6':
+        h = b'[' + h.strip(b'[]') + b']'
+    if kind == 'same':
+        return h + (b':%d' % c['port'] if c['port'] is not None else b'')
+    if kind == 'same-no-port':
+        return h
+    eff = c['port'] if c['port'] is not None else (443 if c['form'] == 'authority' else 80)
+    return h + b':%d' % (8081 if eff != 8081 else 8082)      # same-other-port
+
+
 def check_via_pool(c: Dict[str, Any], target: bytes, feat: Dict[str, Any]) -> List[Any]:
     """The same target through an upstream proxy (ProxyPoolPlugin): the only connection goes to the pool member, and the
     request it receives must still name the host and port the client named."""
     K.install_real_connect()
     connect = c['form'] == 'authority'
     w = K.World(flags(pool=True), max_iters=4000, settle=5)
-    req = (b'CONNECT ' if connect else b'GET ') + target + b' HTTP/1.1\r\nHost: whatever.test\r\n\r\n'
+    req = (b'CONNECT ' if connect else b'GET ') + target + b' HTTP/1.1\r\nHost: ' + host_header(c) + b'\r\n\r\n'
     client = K.Peer('client', out=req, script=[['send', len(req)]])
     w.add_client(client)
     pools: List[K.Peer] = []
@@ -141,7 +159,7 @@ def urllib_view(target: bytes, connect: bool) -> Optional[Tuple[str, Optional[in
 def check_parser(c: Dict[str, Any], target: bytes, feat: Dict[str, Any]) -> List[Any]:
     from proxy.http.parser import HttpParser
     connect = c['form'] == 'authority'
-    raw = (b'CONNECT ' if connect else b'GET ') + target + b' HTTP/1.1\r\nHost: x\r\n\r\n'
+    raw = (b'CONNECT ' if connect else b'GET ') + target + b' HTTP/1.1\r\nHost: ' + (host_header(c) if c.get('host_header') else b'x') + b'\r\n\r\n'
     try:
         p = HttpParser.request(raw)
     except Exception as e:
@@ -171,7 +189,7 @@ def check_system(c: Dict[str, Any], target: bytes, feat: Dict[str, Any]) -> List
     K.install_real_connect()
     connect = c['form'] == 'authority'
     w = K.World(flags(), max_iters=4000, settle=5)
-    req = (b'CONNECT ' if connect else b'GET ') + target + b' HTTP/1.1\r\nHost: whatever.test\r\n\r\n'
+    req = (b'CONNECT ' if connect else b'GET ') + target + b' HTTP/1.1\r\nHost: ' + host_header(c) + b'\r\n\r\n'
     client = K.Peer('client', out=req, script=[['send', len(req)]])
     prior = c.get('prior') if not c.get('damage') else None
     if prior:
@@ -303,6 +321,8 @@ def cases(draw: Any, damaged: bool) -> Dict[str, Any]:
         eff = port if port is not None else (443 if form == 'authority' else 80)
         c['prior'] = {'port': draw(st.sampled_from([p_ for p_ in (80, 443, 8080, 8443, 9000) if p_ != eff])),
                       'form': draw(st.sampled_from(['absolute', 'authority']))}
+    if not damaged:
+        c['host_header'] = draw(st.sampled_from(['other', 'other', 'same', 'same-other-port', 'same-no-port']))
     if damaged:
         c['damage'] = draw(st.sampled_from(['unbalanced-bracket', 'port-not-a-number', 'port-too-large', 'port-negative', 'empty-host',
                                             'two-at', 'stray-colon']))
@@ -328,6 +348,8 @@ def run_shard(spec: Dict[str, Any], seed: int, acc: Any) -> None:
             labs.append('after-connection-to-same-host-other-port')
         if c.get('via_pool') and c['hkind'] == 'name':
             labs.append('also-through-an-upstream-proxy')
+        if c.get('host_header') and c['host_header'] != 'other':
+            labs.append('host-field:' + c['host_header'])
         if c.get('damage'):
             labs.append('damage:' + c['damage'])
         acc.case(c, nt, labels=labs, key=info['target'])
